@@ -266,3 +266,118 @@ Proof. intros H. unfold set_label. now rewrite H. Qed.
 Theorem register_not_a_label regs ls f n :
   mem n regs = true -> lfind ls (KFile f n) = None -> lookup_label regs ls (ScFile f) n = None.
 Proof. intros H1 H2. unfold lookup_label. cbn. now rewrite H2, H1. Qed.
+
+(* ------------------------------------------------------------------------------------------ *)
+(* C12: configured operand value constraints are enforced: a part's value is produced iff it satisfies them *)
+
+Definition sat_max (v : Z) (mx : option Z) : Prop := match mx with None => True | Some m => v <= m end.
+Definition sat_min (v : Z) (mn : option Z) : Prop := match mn with None => True | Some m => m <= v end.
+Definition sat_bounds (v : Z) (b : option (Z * Z)) : Prop := match b with None => True | Some (lo, hi) => lo <= v <= hi end.
+
+Lemma opt_le_iff v mx : opt_le v mx = true <-> sat_max v mx.
+Proof. destruct mx; cbn; [lia | tauto]. Qed.
+Lemma opt_ge_iff v mn : opt_ge v mn = true <-> sat_min v mn.
+Proof. destruct mn; cbn; [lia | tauto]. Qed.
+Lemma in_bounds_iff v b : in_bounds b v = true <-> sat_bounds v b.
+Proof. destruct b as [[lo hi]|]; cbn; [lia | tauto]. Qed.
+
+Definition mkpart (pv : pval) (size : Z) (al : bool) (e : endian) : ipart :=
+  {| ip_val := pv; ip_size := size; ip_align := al; ip_endian := e |}.
+
+Theorem part_minmax ev addr isz e mx mn size al en r :
+  part_value ev addr isz (mkpart (VValid e mx mn) size al en) = Ok r
+  <-> ev e = Ok r /\ sat_max r mx /\ sat_min r mn.
+Proof.
+  unfold part_value, mkpart. cbn [ip_val]. destruct (ev e) as [v| |]; cbn [bind].
+  - split.
+    + destruct (opt_le v mx) eqn:E1; destruct (opt_ge v mn) eqn:E2; cbn [andb]; intros H; try discriminate.
+      injection H as <-. repeat split; [now apply opt_le_iff | now apply opt_ge_iff].
+    + intros [H [H1 H2]]. injection H as <-. apply opt_le_iff in H1. apply opt_ge_iff in H2. now rewrite H1, H2.
+  - split; [discriminate | intros [H _]; discriminate].
+  - split; [discriminate | intros [H _]; discriminate].
+Qed.
+
+Theorem part_zone ev addr isz e b size al en r :
+  part_value ev addr isz (mkpart (VZone e b) size al en) = Ok r <-> ev e = Ok r /\ sat_bounds r b.
+Proof.
+  unfold part_value, mkpart. cbn [ip_val]. destruct (ev e) as [v| |]; cbn [bind].
+  - split.
+    + destruct (in_bounds b v) eqn:E; intros H; try discriminate. injection H as <-. split; [reflexivity | now apply in_bounds_iff].
+    + intros [H H1]. injection H as <-. apply in_bounds_iff in H1. now rewrite H1.
+  - split; [discriminate | intros [H _]; discriminate].
+  - split; [discriminate | intros [H _]; discriminate].
+Qed.
+
+Theorem part_enum ev addr isz e d size al en r :
+  part_value ev addr isz (mkpart (VEnum e d) size al en) = Ok r
+  <-> exists v, ev e = Ok v /\ dict_get d v = Some r.
+Proof.
+  unfold part_value, mkpart. cbn [ip_val]. destruct (ev e) as [v| |]; cbn [bind].
+  - destruct (dict_get d v) as [x|] eqn:E; split.
+    + intros H; inversion H; subst. eauto.
+    + intros [v' [H1 H2]]. inversion H1; subst. congruence.
+    + discriminate.
+    + intros [v' [H1 H2]]. inversion H1; subst. congruence.
+  - split; [discriminate | intros [v' [H _]]; discriminate].
+  - split; [discriminate | intros [v' [H _]]; discriminate].
+Qed.
+
+(* relative offsets are measured from the instruction's address, or from its last byte when so configured *)
+Theorem part_relative ev addr isz e mn mx from_end b size al en r :
+  part_value ev addr isz (mkpart (VRel e mn mx from_end b) size al en) = Ok r
+  <-> exists v, ev e = Ok v /\ sat_bounds v b
+                /\ r = (if from_end then v - (addr + (isz - 1)) else v - addr)
+                /\ sat_max r mx /\ sat_min r mn.
+Proof.
+  unfold part_value, mkpart. cbn [ip_val]. destruct (ev e) as [v| |]; cbn [bind].
+  - destruct (in_bounds b v) eqn:Eb; cbn [negb].
+    + set (rel := if from_end then v - addr - (isz - 1) else v - addr).
+      destruct (opt_le rel mx) eqn:E1; destruct (opt_ge rel mn) eqn:E2; cbn [andb]; split.
+      * intros H; inversion H; subst. exists v. split; [reflexivity|]. split; [now apply in_bounds_iff|].
+        split; [unfold rel; destruct from_end; lia|]. split; [now apply opt_le_iff | now apply opt_ge_iff].
+      * intros [v' [H1 [H2 [H3 _]]]]. inversion H1; subst. f_equal. unfold rel. destruct from_end; lia.
+      * discriminate.
+      * intros [v' [H1 [_ [H3 [_ H5]]]]]. inversion H1; subst. apply opt_ge_iff in H5.
+        assert (rel = (if from_end then v' - (addr + (isz - 1)) else v' - addr)) by (unfold rel; destruct from_end; lia). congruence.
+      * discriminate.
+      * intros [v' [H1 [_ [H3 [H4 _]]]]]. inversion H1; subst. apply opt_le_iff in H4.
+        assert (rel = (if from_end then v' - (addr + (isz - 1)) else v' - addr)) by (unfold rel; destruct from_end; lia). congruence.
+      * discriminate.
+      * intros [v' [H1 [_ [H3 [H4 _]]]]]. inversion H1; subst. apply opt_le_iff in H4.
+        assert (rel = (if from_end then v' - (addr + (isz - 1)) else v' - addr)) by (unfold rel; destruct from_end; lia). congruence.
+    + split; [discriminate|]. intros [v' [H1 [H2 _]]]. inversion H1; subst. apply in_bounds_iff in H2. congruence.
+  - split; [discriminate | intros [v' [H _]]; discriminate].
+  - split; [discriminate | intros [v' [H _]]; discriminate].
+Qed.
+
+(* sliced addresses: the bits above the slice must equal those of the instruction's own address *)
+Theorem part_sliced_address ev addr isz e b size al en r :
+  0 <= size ->
+  (part_value ev addr isz (mkpart (VAddr e b true true) size al en) = Ok r
+   <-> exists v, ev e = Ok v /\ sat_bounds v b /\ addr / 2 ^ size = v / 2 ^ size /\ r = v mod 2 ^ size).
+Proof.
+  intros Hs. unfold part_value, mkpart. cbn [ip_val ip_size andb]. destruct (ev e) as [v| |]; cbn [bind].
+  - destruct (in_bounds b v) eqn:Eb; cbn [negb].
+    + rewrite !Z.shiftr_div_pow2 by lia.
+      replace (2 ^ size - 1) with (Z.ones size) by (rewrite Z.ones_equiv; lia). rewrite Z.land_ones by lia.
+      destruct (addr / 2 ^ size =? v / 2 ^ size) eqn:E; split.
+      * intros H; inversion H; subst. exists v. repeat split; [now apply in_bounds_iff | lia].
+      * intros [v' [H1 [_ [_ H4]]]]. inversion H1; subst. reflexivity.
+      * discriminate.
+      * intros [v' [H1 [_ [H3 _]]]]. inversion H1; subst. lia.
+    + split; [discriminate|]. intros [v' [H1 [H2 _]]]. inversion H1; subst. apply in_bounds_iff in H2. congruence.
+  - split; [discriminate | intros [v' [H _]]; discriminate].
+  - split; [discriminate | intros [v' [H _]]; discriminate].
+Qed.
+
+Theorem part_address_in_zone ev addr isz e b size al en r :
+  part_value ev addr isz (mkpart (VAddr e b false false) size al en) = Ok r <-> ev e = Ok r /\ sat_bounds r b.
+Proof.
+  unfold part_value, mkpart. cbn [ip_val andb]. destruct (ev e) as [v| |]; cbn [bind].
+  - split.
+    + destruct (in_bounds b v) eqn:E; cbn [negb]; intros H; try discriminate. injection H as <-.
+      split; [reflexivity | now apply in_bounds_iff].
+    + intros [H H1]. injection H as <-. apply in_bounds_iff in H1. now rewrite H1.
+  - split; [discriminate | intros [H _]; discriminate].
+  - split; [discriminate | intros [H _]; discriminate].
+Qed.
